@@ -5,7 +5,7 @@ import rfc8554 as R
 RULE = ("valid triples from library signatures (all hashes, 1..4+ levels, mixed parameters) plus structure-aware mutations: bit flips in "
         "every field class (level count, q, type codes, randomizer, chain values, path nodes, child keys, public-key fields, message), "
         "truncation/extension at field boundaries and by one byte, splices across keys/levels/hashes, chain truncation with the message "
-        "replaced by a child public key; oracle = independent RFC 8554 verifier (tools/rfc8554.py, Appendix-B formulas)")
+        "replaced by a child public key; oracle = independent RFC 8554 verifier (tools/rfc8554.py, Appendix-B formulas); signature/key extensions at 8/16-bit length boundaries (255, 256, 65535, 65536, 65537, 2*65536)")
 ASSUMPTIONS = ["the independent verifier uses the library's type-code numbering (1-4, 5-9, hook height 1) for every hash, as the property states "
                "('for the selected hash function')",
                "for the three LM-OTS rows whose checksum shift differs from Appendix B (known finding C12) the oracle uses the library's shift; "
@@ -18,7 +18,7 @@ def lib_ls(n, w):
     return LIB_LS[w]
 
 
-def mutations(rng, k, msg, sig, tier):
+def mutations(rng, k, msg, sig, tier, wide=True):
     """yield (class, msg, sig, pk)"""
     n = k.n
     nspk, lv = parse_hss_sig(n, sig)
@@ -61,6 +61,13 @@ def mutations(rng, k, msg, sig, tier):
             out.append(("sig/truncated", msg, sig[:c], k.vk))
     out.append(("sig/extended", msg, sig + b"\0", k.vk))
     out.append(("sig/extended", msg, sig + rng.bytes_(n), k.vk))
+    # extensions at integer-width boundaries (a length computed or compared in 8/16 bits would wrap exactly here)
+    for ext in ((255, 256, 65535 - len(sig), 65536 - len(sig), 65535, 65536, 65537, 2 * 65536) if wide else ()):
+        if ext > 0:
+            out.append(("sig/extended-width-boundary", msg, sig + bytes([rng.randrange(256)]) * ext, k.vk))
+    if wide:
+        out.append(("pk/extended-width-boundary", msg, sig, k.vk + b"\0" * 65536))
+        out.append(("pk/extended-width-boundary", msg, sig, k.vk + b"\0" * 256))
     out.append(("pk/truncated", msg, sig, k.vk[:-1]))
     out.append(("pk/extended", msg, sig, k.vk + b"\7"))
     # consistent re-typing: change a type code AND resize the dependent part so that the whole signature still parses
@@ -130,7 +137,7 @@ def run(ctx):
             k = c.meta["key"]
             signed.append((k, c.meta["msg"], sig))
             triples.append(("valid", k.H, c.meta["msg"], sig, k.vk))
-            for (cl, m, s, p) in mutations(rng, k, c.meta["msg"], sig, ctx.tier):
+            for (cl, m, s, p) in mutations(rng, k, c.meta["msg"], sig, ctx.tier, wide=(len(signed) <= (4 if ctx.tier == "quick" else 12))):
                 triples.append((cl, k.H, m, s, p))
     # splices across keys / hashes
     for _ in range(10 if ctx.tier == "quick" else 60):
